@@ -385,6 +385,36 @@ func HandleBodies(c *core.Check, st core.State) {
 							continue // owned by the expression stage (localised there)
 						}
 					}
+					// ... also when only a sub-expression launders (the whole may carry the mark through a sibling)
+					{
+						sc0 := e1.With(base, map[string]cty.Value{name: p.a})
+						sc1 := e1.With(base, map[string]cty.Value{name: p.b})
+						launders := func(sub *e1.Node, extra map[string]cty.Value) bool {
+							se, sd := hclsyntax.ParseExpression([]byte(e1.Render(sub, e1.Layout{})), "sub.hcl", hcl.InitialPos)
+							if sd.HasErrors() {
+								return false
+							}
+							a, ad := se.Value(&hcl.EvalContext{Variables: e1.With(sc0, extra), Functions: funcs})
+							b, bd := se.Value(&hcl.EvalContext{Variables: e1.With(sc1, extra), Functions: funcs})
+							if ad.HasErrors() || bd.HasErrors() {
+								return false
+							}
+							ua, _ := a.UnmarkDeep()
+							ub, _ := b.UnmarkDeep()
+							return !ua.RawEquals(ub) && (!HasMark(a) || !HasMark(b))
+						}
+						evalIn := func(sub *e1.Node, extra map[string]cty.Value) (cty.Value, bool) {
+							se, sd := hclsyntax.ParseExpression([]byte(e1.Render(sub, e1.Layout{})), "sub.hcl", hcl.InitialPos)
+							if sd.HasErrors() {
+								return cty.NilVal, false
+							}
+							val, vd := se.Value(&hcl.EvalContext{Variables: e1.With(sc0, extra), Functions: funcs})
+							return val, !vd.HasErrors()
+						}
+						if small, extra := e1.Localise(v.Node, launders, evalIn); small != v.Node && launders(small, extra) {
+							continue
+						}
+					}
 					sig := "mark-lost/body/" + p.how + "/" + bc.name
 					if bc.dyn && strings.HasPrefix(bc.name, "dynamic-for_each") || bc.name == "dynamic-nested-static" {
 						// root cause: a marked for_each collection with NO elements generates no block that could carry the mark
